@@ -543,7 +543,13 @@ impl Link {
         let config = self.config.latency.as_ref().unwrap_or(global);
 
         let mult = config.latency_distribution.sample(rand);
-        let range = (config.max_message_latency - config.min_message_latency).as_millis() as f64;
+        // A maximum set through `set_link_max_message_latency` /
+        // `set_max_message_latency` may lie below the (inherited) minimum. The
+        // maximum wins then (see the `min` below) instead of panicking here.
+        let range = config
+            .max_message_latency
+            .saturating_sub(config.min_message_latency)
+            .as_millis() as f64;
         let delay = config.min_message_latency + Duration::from_millis((range * mult) as _);
 
         std::cmp::min(delay, config.max_message_latency)
